@@ -231,6 +231,20 @@ example : holds (fun _ => 1000) [] [.ok 0 0 7, .tick 999, .ok 1 0 7] [(0, 7)] = 
 /-- … rejects handing out a pre-existing id, and a marker left behind by an exhausted call. -/
 example : holds (fun _ => 1000) [((0, 7), 0)] [.ok 0 0 7] [(0, 7)] = false := by decide
 example : holds (fun _ => 1000) [((0, 7), 0)] [.exh 0 0] [(0, 7), (0, 8)] = false := by decide
+/-- **Expired, not yet swept markers** are ordinary inputs of `C15_main` (`pre` carries expiry
+instants; an entry whose instant has passed is still in the list).  Slot 1 holds the lapsed lease of a
+crashed node (expiry 1, clock at 3): of two nodes racing for it exactly one gets it, the other moves
+on to slot 2 — and `holds` rejects an observation in which both are given slot 1. -/
+example :
+    (run ⟨true, fun _ => 90000, fun _ => 1000, true⟩
+        (init [((9, 1), 1)] [(0, [.gen 9 (fun a => 1 + a)]), (1, [.gen 9 (fun a => 1 + a)])])
+        [.tick 3, .step 0, .step 1, .step 1]).trace
+      = [.tick 3, .ok 0 9 1, .ok 1 9 2] := by decide
+example : holds (fun _ => 90000) [((9, 1), 1)] [.tick 3, .ok 0 9 1, .ok 1 9 2] [(9, 1), (9, 2)] = true := by decide
+example : holds (fun _ => 90000) [((9, 1), 1)] [.tick 3, .ok 0 9 1, .ok 1 9 1] [(9, 1)] = false := by decide
+/-- Before it expires the same marker is simply taken. -/
+example : holds (fun _ => 90000) [((9, 1), 5)] [.tick 3, .ok 0 9 1] [(9, 1)] = false := by decide
+
 /-- The fallback theorem's hypotheses are inhabited. -/
 example : ∀ p ∈ [[Op.gen 0 (fun a => a), Op.rel 0 1], [Op.relOwn]], Op.renewOwn ∉ p := by
   intro p hp; simp at hp; rcases hp with rfl | rfl <;> simp
